@@ -46,6 +46,7 @@ struct JanetAssembler {
     jmp_buf on_error;
     const uint8_t *errmessage;
     int32_t errindex;
+    int32_t depth; /* Nesting depth of closures, to bound recursion */
 
     int32_t environments_capacity;
     int32_t defs_capacity;
@@ -503,6 +504,7 @@ static JanetAssembleResult janet_asm1(JanetAssembler *parent, Janet source, int 
     /* Initialize Assembler */
     a.def = def;
     a.parent = parent;
+    a.depth = parent ? parent->depth + 1 : 0;
     a.errmessage = NULL;
     a.errindex = 0;
     a.environments_capacity = 0;
@@ -531,6 +533,8 @@ static JanetAssembleResult janet_asm1(JanetAssembler *parent, Janet source, int 
         janet_asm_deinit(&a);
         return result;
     }
+
+    janet_asm_assert(&a, a.depth < JANET_RECURSION_GUARD, "closures nested too deeply");
 
     janet_asm_assert(&a,
                      janet_checktype(s, JANET_STRUCT) ||
